@@ -185,9 +185,12 @@ def brace_texts(k):
 def entry_brace(words, n, layout, stats=None):
     oplens = ((3,), (12, 3), (3, 24, 3), (3, 3, 12, 3))[n - 1]
     g = M.Group(oplens, words, layout=layout)
+    # the brace group is followed directly by a single-instruction comment (no mid-block comment in between: a group
+    # that is closed with too few braces swallows it), then by one behind a mid-block comment
+    g1 = M.Group((3,), ['cc'])
     g2 = M.Group((3,), ['bb'], mid=[['a']])
     form = 'sna2skool' if M.brace_form_allowed(words, n) else 'prefix-dip'
-    return M.Entry({'brace_text': ' '.join(words), 'n': n, 'layout': layout, 'brace_form': form}, ['a'], groups=[g, g2])
+    return M.Entry({'brace_text': ' '.join(words), 'n': n, 'layout': layout, 'brace_form': form}, ['a'], groups=[g, g1, g2])
 
 
 def block_tokens(kind, length, salt):
